@@ -90,7 +90,11 @@ void Encoder::putPacket(const Packet& packet)
         bytesLeft -= bytesToAdd;
 
         if (isSegmentedFlag == SegmentType::lastSegment)
-            addNewCMPFrame(packet);
+        {
+            // A frame that carries a segment is closed, nothing is appended to it
+            cmpFrame.resize(std::max(cmpFrame.size() - bytesLeft, minBytesPerMessage), 0);
+            bytesLeft = 0;
+        }
     }
 
 }
@@ -140,7 +144,9 @@ bool Encoder::checkIfSegmented(const Packet& packet)
     bool isSegmented = (!cmpFrames.empty() && bytesLeft < sizeof(MessageHeader) + packet.getPayloadLength());
     if (isSegmented)
     {
-        addNewCMPFrame(packet);
+        // Segmentation starts in a frame of its own; a frame that is still empty is reused
+        if (bytesLeft != maxBytesPerMessage - sizeof(CmpHeader))
+            addNewCMPFrame(packet);
         isSegmented = (!cmpFrames.empty() && bytesLeft < sizeof(MessageHeader) + packet.getPayloadLength());
     }
     return isSegmented;
